@@ -289,6 +289,10 @@ func GenC16Session(seed uint64) *Scenario {
 	lastPos := ""
 	var lastRoot *rules.Pos
 	for s := 0; s < n; s++ {
+		if s > 0 && rng.Intn(100) < 10 {
+			// option values at the edge of the announced range (Hash: min 0)
+			emit(gapAfterResult(rng), fmt.Sprintf("setoption name Hash value %d", []int{0, 0, 1, 3}[rng.Intn(4)]))
+		}
 		posCmd, root := genPosition(rng, 3)
 		if lastPos != "" && lastRoot != nil && rng.Chance(0.35) && len(lastRoot.LegalMoves()) > 0 {
 			// a game in progress: the same start with the move list extended by a few moves
